@@ -23,7 +23,7 @@ def run(res, pool, tier, seed):
     # points and half-line origins 1/8 of a lattice unit off the faces of lopsided bodies (segments would need |pts|^2 anchors)
     jobs.append(dict(module="MC_FlatBody.tla", tag="near-s8", invariants=["Typed", "InBoth", "Emit"], timeout=3600,
                      constants=dict(GENK=set(), NGEN=1, S=8, BODIES={"tet", "pyr", "wedge", "ppyr", "obl"}, KF={"Point", "HalfLine"}, SEED=sd,
-                                    NSHARD=900 if tier == "quick" else 60, NXCHECK=1000)))
+                                    NSHARD=400 if tier == "quick" else 40, NXCHECK=1000)))
     engine.run_jobs(res, jobs, pool)
     import traces
     traces.run_for(res, ["unit_tests", "driver"] if tier != "quick" else ["unit_tests"], {"C02"}, seed=seed + 1, nsessions=2500)
